@@ -299,6 +299,27 @@ func history01(r *rand.Rand, hist map[string]int) (string, any, string, bool, st
 	unlinkedOwing := map[int]bool{}
 
 	n := 3 + r.Intn(14)
+	// scripted openings: rows of different lengths (a link between two writes) followed by an unlink or a close
+	var script []wop
+	if nr >= 2 && r.Intn(3) == 0 {
+		a, b := 0, 1
+		if r.Intn(2) == 0 {
+			a, b = 1, 0
+		}
+		script = []wop{{k: kLink, r: a}, {k: kWrite}, {k: kLink, r: b}, {k: kWrite}}
+		if r.Intn(2) == 0 {
+			script = append(script, wop{k: kWrite})
+		}
+		x := []int{a, b}[r.Intn(2)]
+		switch r.Intn(3) {
+		case 0:
+			script = append(script, wop{k: kUnlink, r: x})
+		case 1:
+			script = append(script, wop{k: kCloseReader, r: x})
+		}
+		script = append(script, wop{k: kAnswer, r: a}, wop{k: kAnswer, r: a}, wop{k: kAnswer, r: b})
+		n += len(script)
+	}
 	var steps, input []string
 	crash := ""
 	led := newLedger()
@@ -310,7 +331,15 @@ func history01(r *rand.Rand, hist map[string]int) (string, any, string, bool, st
 	}
 	for s := 0; s < n && crash == ""; s++ {
 		var o wop
-		{
+		if s < len(script) {
+			o = script[s]
+			switch o.k {
+			case kWrite:
+				o.pay = randPayload(r, 1)
+			case kAnswer:
+				o.ans = packet.New(randPayload(r, 0))
+			}
+		} else {
 			type cand struct {
 				o wop
 				w int
